@@ -14,6 +14,7 @@ RULE = ("Hypothesis draws a series (length 3-2000; shapes: explicit element list
 ASSUMPTIONS = ["HP optimality residual tolerance 1e-12*(1+16*lambda)*max|y| (backward error of a sparse LU solve)",
                "log filters are exercised on strictly positive series only"]
 SHARDS = {"quick": 4, "thorough": 16}
+TINY = 1e-290   # absolute floor: relative tolerances underflow to 0 on series of subnormal magnitude
 
 
 @st.composite
@@ -100,11 +101,11 @@ def check_hp(ctx: Ctx, case):
     if not np.all(np.isfinite(trend)):
         ctx.fail("C20/hp-nonfinite", "trend is not finite", sub, case)
         return
-    if np.max(np.abs(cycle + trend - y)) > 8 * np.finfo(float).eps * max(m, float(np.max(np.abs(trend)))):
+    if np.max(np.abs(cycle + trend - y)) > 8 * np.finfo(float).eps * max(m, float(np.max(np.abs(trend)))) + TINY:
         ctx.fail("C20/hp-sum", f"cycle + trend differs from the series by {np.max(np.abs(cycle + trend - y))!r}", sub, case)
         return
     res = hp_residual(y, trend, lamb)
-    if res > 1e-12 * (1 + 16 * lamb) * m:
+    if res > 1e-12 * (1 + 16 * lamb) * m + TINY:
         ctx.fail("C20/hp-optimality", f"||trend + lambda K'K trend - y||inf = {res!r} for lambda={lamb!r}, max|y|={m!r}",
                  sub, case)
         return
@@ -142,7 +143,7 @@ def check_filters(ctx: Ctx, case):
     if which in ("hp1600", "log_hp"):
         mb = float(np.max(np.abs(base))) or 1e-300
         res = hp_residual(base, base - out, 1600.0)
-        if res > 1e-12 * (1 + 16 * 1600) * mb:
+        if res > 1e-12 * (1 + 16 * 1600) * mb + TINY:
             ctx.fail("C20/filter-definition", f"{which}: input minus output does not satisfy the HP condition at "
                      f"lambda=1600 (residual {res!r}, scale {mb!r})", sub, case)
         return
@@ -150,11 +151,11 @@ def check_filters(ctx: Ctx, case):
     ref = np.concatenate(([0.0], lg[1:] - lg[:-1]))
     ref = ref - ref.sum() / len(ref)
     sc = max(1e-300, float(np.max(np.abs(lg))))
-    if np.max(np.abs(out - ref)) > 1e-12 * sc:
+    if np.max(np.abs(out - ref)) > 1e-12 * sc + TINY:
         ctx.fail("C20/filter-definition", f"diff_log_demean differs from (0, dlog y) - mean by {np.max(np.abs(out - ref))!r}",
                  sub, case)
         return
-    if abs(float(np.mean(out))) > 1e-12 * sc:
+    if abs(float(np.mean(out))) > 1e-12 * sc + TINY:
         ctx.fail("C20/filter-definition", f"diff_log_demean output has mean {float(np.mean(out))!r}", sub, case)
 
 
